@@ -29,7 +29,7 @@
      C07_rectangular          all columns of the data array have the common length
                               (both forms: stated with curve_length, and for a given r);
      C07_normal_engine_binds  the normal engine on a body whose data lines each split into
-                              exactly c float tokens returns, as column j, the CNum cells of
+                              exactly c float tokens returns, as column j, the numeric cells (mk_num) of
                               [row_0[j]; row_1[j]; ...] (Proofs/DataReadProofs.v
                               normal_engine_rows; line_items = what one physical line
                               contributes after strip / comment test / substitutions / ^Z
@@ -106,6 +106,24 @@ Proof.
   intros r. apply data_for_curves_rect_r.
 Qed.
 
+(* the normal engine binds value j of data line i to element i of column j *)
+Theorem C07_normal_engine_binds : forall fhex fstr d subs c body,
+  (0 < c)%nat ->
+  Forall (fun raw => line_items d subs raw = [] \/ List.length (line_items d subs raw) = c) body ->
+  filter nonempty (map (line_items d subs) body) <> [] ->
+  forallb (forallb (is_float_tok fhex)) (map (line_items d subs) body) = true ->
+  let rows := filter nonempty (map (line_items d subs) body) in
+  exists cols, normal_engine fhex fstr d subs c body = DOk cols /\ List.length cols = c /\
+    forall j, (j < c)%nat -> nth j cols [] = map (mk_num fhex) (map (fun r => nth j r []) rows).
+Proof.
+  intros fhex fstr d subs c body Hc Hall Hne Hfl rows.
+  exists (map (map (mk_num fhex)) (transpose_n c rows)).
+  split; [apply normal_engine_rows; assumption|].
+  split; [rewrite map_length; apply transpose_n_length|].
+  intros j Hj. rewrite <- (transpose_n_nth c rows j Hj).
+  change (@nil cell) with (map (mk_num fhex) []). apply map_nth.
+Qed.
+
 (* non-vacuity: 3 data lines of 2 tokens carrying their coordinates, 3 declared curves
    (one more than columns) and 1 declared curve (one fewer) *)
 Definition ex_rows : list (list (list N)) :=
@@ -132,6 +150,24 @@ Example C07_ex_data :
   Forall (fun c => List.length c = 3%nat) ex_cols /\ (List.length ex_cols <= 3)%nat.
 Proof. split; [vm_compute; reflexivity|]. split; [discriminate|]. split; vm_compute; repeat constructor. Qed.
 
+(* a comma-delimited body with a blank line and a comment line; d = 2 *)
+Definition ex_fhex (t : list N) : option (list N) :=
+  match NumLit.py_float_dec t with Some _ => Some t | None => None end.
+Definition ex_body : list (list N) :=
+  [ s2l "100,101" ++ [10]; [10]; s2l "#c" ++ [10]; s2l "200,201" ++ [10]; s2l "300,301" ].
+Example C07_ex_engine_hyps :
+  Forall (fun raw => line_items DComma comma_delim_subs raw = [] \/
+                     List.length (line_items DComma comma_delim_subs raw) = 2%nat) ex_body /\
+  filter nonempty (map (line_items DComma comma_delim_subs) ex_body) = ex_rows /\
+  forallb (forallb (is_float_tok ex_fhex)) (map (line_items DComma comma_delim_subs) ex_body) = true.
+Proof.
+  split; [|split; vm_compute; reflexivity].
+  repeat (apply Forall_cons; [vm_compute; auto|]). apply Forall_nil.
+Qed.
+Example C07_ex_engine :
+  normal_engine ex_fhex (fun t => t) DComma comma_delim_subs 2 ex_body = DOk ex_cols.
+Proof. vm_compute. reflexivity. Qed.
+
 Print Assumptions C07_reshape_rows.
 Print Assumptions C07_transpose_nth.
 Print Assumptions C07_bind_length.
@@ -140,3 +176,4 @@ Print Assumptions C07_bind_declared.
 Print Assumptions C07_bind_new_unnamed.
 Print Assumptions C07_data_columns.
 Print Assumptions C07_rectangular.
+Print Assumptions C07_normal_engine_binds.
